@@ -176,7 +176,12 @@ def _trilist(g, n):
 
 def _edges(g, n, tree=False):
     if tree:
-        return np.array([[int(g.randint(0, i)), i] for i in range(1, n)])
+        # breadth-first numbering (non-decreasing parents): menpo's Tree constructor compares
+        # scipy's BFS edge order with the CSR order and rejects other numberings of valid trees
+        parents = sorted(int(g.randint(0, i)) for i in range(1, n))
+        for i in range(1, n):
+            parents[i - 1] = min(parents[i - 1], i - 1)
+        return np.array([[parents[i - 1], i] for i in range(1, n)])
     e = set()
     for i in range(n - 1):
         if g.rand() < 0.8:
@@ -217,8 +222,9 @@ def make_shape(kind, seed, n, d):
             cover |= m
         if not cover.all():
             lab["rest"] = ~cover
-        lab2 = OrderedDict((name, np.nonzero(m)[0]) for name, m in lab.items() if m.any())
-        return LabelledPointUndirectedGraph.init_from_indices_mapping(pts, _edges(g, n), lab2)
+        lab2 = OrderedDict((name, m) for name, m in lab.items() if m.any())
+        # (init_from_indices_mapping would read a (2, 2) edge array as an adjacency matrix)
+        return LabelledPointUndirectedGraph.init_from_edges(pts, _edges(g, n), lab2)
     raise ValueError(kind)
 
 
